@@ -8,7 +8,7 @@ from __future__ import annotations
 import array
 import itertools
 
-from .. import core, families
+from .. import core, families, routes as RT
 from ..util import CLASSES, STREAMS, obs, cb, vkind, mk, snippet, fmt_slice
 
 PROPERTY = 'C01'
@@ -111,13 +111,28 @@ def reduced_menu(L):
     return list(dict.fromkeys([None, 0, 1, -1, L // 2, L, -L, L + 1, -L - 1]))
 
 
+VIEW_ROUTES = ('file_len', 'file_off3_len', 'file_handle_len', 'bytes_off3', 'bytesio', 'slice', 'stepslice', 'from_mutated', 'fromstring', 'str_again')
+
+
 def run_triples(bs, acc, shard):
     L, cls = shard['L'], shard['cls']
     rng = [None] + list(range(-L - 2, L + 3))
     steps = list(dict.fromkeys([None, 1, -1, 2, -2, 3, -3, L, -L, L + 1, -L - 1, 0]))
-    for d in planes(L):
-        for pos in poses(cls, L):
-            slices(bs, acc, cls, d, pos, rng, steps)
+    ctx = RT.Ctx()
+    try:
+        for d in planes(L):
+            for pos in poses(cls, L):
+                slices(bs, acc, cls, d, pos, rng, steps)
+            # the same triples on objects that are views of a longer source (length-limited file, offset window, slice of a larger object ...)
+            for r in VIEW_ROUTES:
+                try:
+                    if RT.build(bs, r, cls, d, ctx) is None:
+                        continue
+                except Exception:  # noqa: BLE001 - construction is C08/C15 business
+                    continue
+                slices(bs, acc, cls, d, 0, rng, [None, 1, -1, 2, -3], mkobj=lambda r=r: RT.build(bs, r, cls, d, ctx), src=RT.source(r, cls, d), route=r)
+    finally:
+        ctx.close()
 
 
 def basic(bs, acc, cls, d, pos, index_menu=None):
@@ -168,10 +183,16 @@ def basic(bs, acc, cls, d, pos, index_menu=None):
 CB_SRC = "lambda r: (type(r).__name__, r.bin, getattr(r, 'pos', None))"
 
 
-def slices(bs, acc, cls, d, pos, rng, steps):
+def slices(bs, acc, cls, d, pos, rng, steps, mkobj=None, src=None, route=None):
     L = len(d)
-    s = build(bs, cls, d, pos)
-    acc.state((cls, d, pos))
+    s = mkobj() if mkobj else build(bs, cls, d, pos)
+    acc.state((cls, d, pos, route))
+    if src:
+        _mk = lambda *_a: src
+        pre0 = [RT.SNIPPET_PRELUDE]
+    else:
+        _mk = mk
+        pre0 = []
     epos = 0 if cls in STREAMS else None
     n = nt = rej = 0
     for c in steps:
@@ -181,7 +202,7 @@ def slices(bs, acc, cls, d, pos, rng, steps):
             rej += 1
             if got != ('exc', 'ValueError'):
                 acc.violation('slice', vkind(('exc', 'ValueError'), got), dict(cls=cls, data=d, pos=pos, a=1, b=2, c=0),
-                              snippet([f"s = {mk(cls, d, pos)}"], "s[1:2:0]", ('exc', 'ValueError')), 'ValueError', got)
+                              snippet(pre0 + [f"s = {_mk(cls, d, pos)}"], "s[1:2:0]", ('exc', 'ValueError')), 'ValueError', got)
             continue
         for a in rng:
             for b in rng:
@@ -202,8 +223,8 @@ def slices(bs, acc, cls, d, pos, rng, steps):
                     if got is None:
                         got = ('ok', cb(r))
                     exp = ('ok', (cls, e, epos))
-                    acc.violation('slice', vkind(exp, got), dict(cls=cls, data=d, pos=pos, a=a, b=b, c=c, group='neg' if (c or 1) < 0 else 'pos'),
-                                  snippet([f"s = {mk(cls, d, pos)}"], f"s[{fmt_slice(a, b, c)}]", exp, conv=CB_SRC), exp, got)
+                    acc.violation('slice', vkind(exp, got), dict(cls=cls, data=d, pos=pos, a=a, b=b, c=c, route=route, group=('neg' if (c or 1) < 0 else 'pos') + (f'|{route}' if route else '')),
+                                  snippet(pre0 + [f"s = {_mk(cls, d, pos)}"], f"s[{fmt_slice(a, b, c)}]", exp, conv=CB_SRC), exp, got)
     acc.step('slice', n, nontrivial=nt, ok=n - rej, rej=rej)
     acc.outcome(('slice', L, d[:24], len(rng), len(steps)))
     acc.sample(dict(cls=cls, bits=d[:64], pos=pos, event=f"s[{fmt_slice(rng[-1], rng[1], steps[-1] or None)}]"))
